@@ -478,4 +478,137 @@ def reimport (st : St) : St :=
   -- metadata, and nothing else can give a factory-shaped name one: `wasm_setmeta_key_is_checked_denom`)
   { st with dmeta := fun d => if (deconstruct d).isSome && (st.dmeta d).isSome then some 0 else st.dmeta d }
 
+/-! ### protobuf messages a contract dispatches itself (`CosmosMsg::Any` / Stargate)
+
+Besides the custom bindings above, a contract reaches the token factory by dispatching the protobuf
+messages themselves — bare, or inside an `authz.MsgExec` (possibly nested, holding SEVERAL messages):
+  util/libwasm/plugin.go      router.DispatchMsg → verifyCreator → verifyCreatorOf (every message, at
+                              every position of every MsgExec, must name the contract as metadata.creator;
+                              nesting bounded by cMaxNestedMsgDepth = 6), then the wrapped messenger
+  wasmd handler_plugin.go     SDKMessageHandler.handleSdkMessage: ValidateBasic, every declared signer must be
+                              the contract, msg service router (ValidateBasic again, handler)
+  x/authz keeper              Exec / DispatchActions: messages non-empty, every inner message has exactly one
+                              signer; if it is the grantee the message runs WITHOUT a grant, else a grant is
+                              looked up (the histories contain no authz grant: refused)
+No ante handler runs on this path: behind the router the token factory acts for `metadata.creator`
+unauthenticated (`TfMsg.exec`); that the creator is the contract is the router's check alone. -/
+
+/-- a token factory message in protobuf form: `sg` = the one entry of `metadata.signers`, `c` = `metadata.creator` -/
+inductive TfMsg where
+  | create (sg c : Addr) (sub : Denom)
+  | mint (sg c : Addr) (d : Denom) (amt : Int)
+  | burn (sg c : Addr) (d : Denom) (amt : Int)
+  | chadmin (sg c : Addr) (d : Denom) (new : AddrArg)
+  | setmeta (sg c : Addr) (d : Denom) (mdOk : Bool) (tag : Nat)
+deriving Repr
+
+def TfMsg.signer : TfMsg → Addr
+  | .create sg _ _ => sg
+  | .mint sg _ _ _ => sg
+  | .burn sg _ _ _ => sg
+  | .chadmin sg _ _ _ => sg
+  | .setmeta sg _ _ _ _ => sg
+
+def TfMsg.creator : TfMsg → Addr
+  | .create _ c _ => c
+  | .mint _ c _ _ => c
+  | .burn _ c _ _ => c
+  | .chadmin _ c _ _ => c
+  | .setmeta _ c _ _ _ => c
+
+/-- the same message as a transaction signed by its declared signer -/
+def TfMsg.op : TfMsg → Op
+  | .create sg c sub => .create 0 sg c sub
+  | .mint sg c d amt => .mint 0 sg c d amt
+  | .burn sg c d amt => .burn 0 sg c d amt
+  | .chadmin sg c d new => .chadmin 0 sg c d new
+  | .setmeta sg c d mdOk tag => .setmeta 0 sg c d mdOk tag
+
+/-- run `k` behind `ValidateBasic` only (msg service router; no ante chain) -/
+def noAnte (st : St) (basic : Option Rej) (k : St × Res) : St × Res :=
+  match basic with
+  | some e => (st, .rej e)
+  | none => k
+
+/-- msg service router: `ValidateBasic`, then the handler acting for `metadata.creator` -/
+def TfMsg.exec (st : St) : TfMsg → St × Res
+  | .create _ c sub => noAnte st (basicCreate c sub) (hCreate st c sub)
+  | .mint _ c d amt => noAnte st (basicCoin d amt) (hMint st c d amt.toNat)
+  | .burn _ c d amt => noAnte st (basicCoin d amt) (hBurn st c d amt.toNat)
+  | .chadmin _ c d new => noAnte st (basicDenom d) (hChAdmin st c d new)
+  | .setmeta _ c d mdOk tag => noAnte st (basicSetMeta d mdOk) (hSetMeta st c d mdOk tag)
+
+mutual
+/-- what a contract can put into `CosmosMsg::Any`: a token factory message or an `authz.MsgExec` -/
+inductive PMsg where
+  | tf (m : TfMsg)
+  | exec (grantee : Addr) (msgs : PMsgs)
+/-- `MsgExec.Msgs` -/
+inductive PMsgs where
+  | nil
+  | cons (m : PMsg) (ms : PMsgs)
+end
+
+def PMsgs.isNil : PMsgs → Bool
+  | .nil => true
+  | .cons _ _ => false
+
+/-- `cMaxNestedMsgDepth` -/
+def maxNest : Nat := 6
+
+mutual
+/-- `verifyCreatorOf(contractAddr = a, msg, depth)` (`true` = nil error) -/
+def PMsg.verify (a : Addr) : PMsg → Nat → Bool
+  | .tf m, _ => decide (m.creator = a)
+  | .exec _ ms, depth => if depth ≥ maxNest then false else ms.verify a (depth + 1)
+/-- its loop over the inner messages: the first refusal is returned -/
+def PMsgs.verify (a : Addr) : PMsgs → Nat → Bool
+  | .nil, _ => true
+  | .cons m ms, depth => if !(m.verify a depth) then false else ms.verify a depth
+end
+
+mutual
+/-- one message sent by `sender` (wasmd `handleSdkMessage` for the outermost message, authz `DispatchActions`
+for an inner one: the declared signer — `metadata.signers[0]`, the grantee of a `MsgExec` — must be the sender) -/
+def PMsg.dispatch (sender : Addr) : PMsg → St → St × Res
+  | .tf m, st => if m.signer ≠ sender then (st, .rej .unauth) else m.exec st
+  | .exec g ms, st =>
+    if g ≠ sender then (st, .rej .unauth) else
+    if ms.isNil then (st, .rej .other) else ms.dispatch g st
+/-- `DispatchActions`: in order, stopping at the first failure (the caller drops the cached store) -/
+def PMsgs.dispatch (sender : Addr) : PMsgs → St → St × Res
+  | .nil, st => (st, .ok)
+  | .cons m ms, st =>
+    if (m.dispatch sender st).2 ≠ .ok then (st, (m.dispatch sender st).2)
+    else ms.dispatch sender (m.dispatch sender st).1
+end
+
+/-- the contract `a` dispatches `m` as `CosmosMsg::Any`: router check, then the chain; atomic -/
+def anyStep (st : St) (a : Addr) (m : PMsg) : St × Res :=
+  if !(m.verify a 0) then (st, .rej .unauth) else
+  if (m.dispatch a st).2 ≠ .ok then (st, (m.dispatch a st).2) else m.dispatch a st
+
+mutual
+/-- the token factory messages of a dispatch, in execution order -/
+def PMsg.leaves : PMsg → List TfMsg
+  | .tf m => [m]
+  | .exec _ ms => ms.leaves
+def PMsgs.leaves : PMsgs → List TfMsg
+  | .nil => []
+  | .cons m ms => m.leaves ++ ms.leaves
+end
+
+/-- histories that interleave transactions / binding calls with protobuf dispatches of contracts -/
+inductive XOp where
+  | op (o : Op)
+  | any (a : Addr) (m : PMsg)
+
+def xstep (st : St) : XOp → St × Res
+  | .op o => step st o
+  | .any a m => anyStep st a m
+
+def xrun (st : St) : List XOp → St
+  | [] => st
+  | x :: xs => xrun (xstep st x).1 xs
+
 end Paloma.TokenFactory
